@@ -97,3 +97,20 @@ func Active() bool { return verifMapOn }
 func Pin() {
 	Begin(nil)
 }
+
+// CompactAlternatives is Alternatives for maps known to be freshly built without deletions (their
+// n ≤ 8 elements occupy slots 0..n-1 of the single bucket): only in-bucket offsets 1..n-1 give a
+// different order; larger offsets start on empty slots and wrap to the default order.
+func (it Iter) CompactAlternatives() []uint8 {
+	if it.B > 0 {
+		return it.Alternatives()
+	}
+	if it.Count < 2 {
+		return nil
+	}
+	out := make([]uint8, 0, it.Count-1)
+	for s := 1; s < it.Count && s < 8; s++ {
+		out = append(out, uint8(s))
+	}
+	return out
+}
